@@ -9,6 +9,8 @@ typedef void (*OpFn)(const Step&);
 void register_op(const std::string& name, OpFn f);
 void register_abort_hook(void (*f)(int client, uint64_t order_seed));   // destroy every handle of the client
 void register_final_hook(void (*f)());                                  // end-of-run checks, in registration order
+void register_integrity_hook(void (*f)(const std::string& oracle, const std::string& site));   // every live handle of the module still equals its model
+std::vector<void (*)(const std::string&, const std::string&)>& integrity_hooks();
 
 extern std::string g_profile;      // property id of the running check ("C01" ...), or "ALL"
 extern std::string g_tier;
